@@ -383,6 +383,7 @@ static void scaleGlobalCase(Rng &rng, CaseResult &r) {
   if (r.needSample()) r.sample = vf::J::obj().kv("what", "placeGlobal with all net weights and penalty.initialValue scaled by 2^k").kv("factor", (double)k).kv("params", gdesc).kraw("circuit", circuitJson(c0)).str();
   if (r.dumpOnly) return;
   if (c0.nbNets() == 0) { r.sig = "nonets"; return; }
+  try { p.check(); } catch (const std::exception &) { r.count("parameter_set_rejected_by_check"); r.sig = "rejected"; return; }
   Circuit a = c0, b = c0;
   std::vector<float> w = b.netWeights_;
   for (auto &x : w) x *= k;
